@@ -153,9 +153,21 @@ CsvVerdict(c) ==
        THEN <<"deviation", "CsvMetadataReadFromPath", "csv">>
   ELSE <<"fail", "NoException", c.err>>
 
+\* ---------------------------------------------------------------- --csv, residues that print alike
+\* Two different residues may print the same name (symmetry mates that keep the author chain id): the report
+\* and the CSV then cannot be mapped back to atoms, but they still list the same NUMBER of clashes as the
+\* library returned (c.nlib), each pair once: c.nprinted report lines, c.ncsv CSV rows.
+CsvCountVerdict(c) ==
+  IF c.err # "" THEN <<"fail", "NoException", c.err>>
+  ELSE IF c.nprinted # c.nlib THEN <<"fail", "PrintedListsSame", "count">>
+  ELSE IF c.nlib > 0 /\ ~c.csv_exists THEN <<"fail", "CsvListsSame", "no file">>
+  ELSE IF c.csv_exists /\ c.ncsv # c.nlib THEN <<"fail", "CsvListsSame", "count">>
+  ELSE <<"ok">>
+
 \* ---------------------------------------------------------------- dispatch
 Verdict(c) == IF c.kind \in {"pal", "geo"} THEN LibVerdict(c)
               ELSE IF c.kind = "cli" THEN CliVerdict(c)
+              ELSE IF c.kind = "csvcount" THEN CsvCountVerdict(c)
               ELSE CsvVerdict(c)
 Evaluations(c) == IF c.kind \in {"pal", "geo"} THEN Len(c.results) ELSE 1
 
